@@ -65,6 +65,10 @@ CLAIMED["C09"] = {
     "text": "Machine-checked proof: a flow invariant Inv (holder variant and call phase match the typestate tag, reader set and never in the transient Trailer state in RecvBody, status set in Redirect, writer mode consistent with analysis, duplicate-free close reasons, bounded added-header list, absolute effective URI, request not taken) holds for flow_new and is preserved by every operation of Flow.v, none of which returns Panic under it (c09_new, one lemma per operation); lifted to Script.step -- the step function the correspondence check executes -- and by induction to histories of ANY length over all 42 operations incl. premature proceed and the single-call API: no observation is `panic` and the invariant holds after every prefix (c09_step, c09_history*), so a flow that advanced is fully usable (c09_usable); in each state with a readiness query can_proceed = true <-> proceed yields a new state, = false <-> proceed returns None, never Err/Panic (c09_ready_iff, c09_await_100_proceed); the successor of every edge is the one the documented graph prescribes, the one after the response head being C06's (c09_successor, c09_successor_c06, c09_body_due). Excluded, explicitly: the known finding F18 (second as_new_flow on one Redirect flow: c09_known_refuted) and three misuses outside every quantifier (request URI without scheme/authority, more than 62 added headers, a bare 100 offered to try_read_100 after a refusal of a different window). Correspondence + oracle: guided walks plus model-pruned BFS over op sequences on a menu of request configurations x server behaviours with premature proceed in every state.",
     "design_ref": "DESIGN.md section 7, C09", "note": COMMON_NOTE + " Known finding F18 listed in known_findings.txt.", "technique": TECH + " (invariant by induction over operation histories)"}
 
+CLAIMED["C14"] = {
+    "text": "Machine-checked proof: as_new_flow resolves the selected Location against the EFFECTIVE (current) URI of the redirected flow (c14_as_new_flow_uri); every flow operation and every Script.step other than new / follow / as_new_flow preserves that URI (c14_step_preserves_uri, c14_script_preserves_uri), so for chains of ANY length the URI after hop n is fold_left resolve over the Locations (c14_chain; c14_not_original exhibits a chain where resolving against the original differs); the last Location field is the one used (c14_last_location); the next head's request line carries the target's path-and-query and, when the original request has no Host field, exactly one Host equal to the target's host (c14_wire; the excluded class is known finding F14: c14_known_refuted); missing / non-text / unresolvable Location is an error, never a panic, and yields no flow, for every byte string (c14_errors, c14_no_panic). The model's resolve equals an independent transcription of RFC 3986 5.2 (appendix-B parse, 5.2.2 transform, 5.2.3 merge, 5.2.4 buffer algorithm, 5.3 recomposition, fragment dropped) followed by scheme/host lower-casing, default-port elision and empty-path normalisation, for EVERY Location and every base whose path is dot-segment free, a condition closed under resolve (c14_resolve_matches_rfc, c14_resolve_closed, c14_chain_rfc); remove_dot_segments is idempotent and leaves no dot segment. Correspondence + oracle on chains of 1..4 hops over the quantifier's Location grammar; malformed and non-UTF-8 Locations oracle-only.",
+    "design_ref": "DESIGN.md section 7, C14", "note": COMMON_NOTE + " The url crate's join is modelled as RFC 3986 resolution plus three normalisations on the property's grammar only; WHATWG leniencies (back-slashes, tab stripping, percent-encoding, %2e) are outside the model and such Locations are compared by the oracle only. Known finding F14 listed in known_findings.txt.", "technique": TECH + " (refinement of the model's resolver to an RFC 3986 transcription; induction over redirect chains)"}
+
 NOT_YET = {}
 ALL = ["C%02d" % i for i in range(1, 21)]
 
